@@ -89,6 +89,22 @@ for _a in KINDS5:
                 return f"{a}.innerprod", X.innerprod, (Y,), {}, X, {"how": how}
         _mkA(_a, _b)
 
+@row("innerprod:empty-sptensor-receiver:shape-mismatch")
+def _(e):
+    X = ttb.sptensor(shape=e.shape)
+    shp, how = other_shape(e)
+    Y = with_shape(e, shp).holder(KINDS4[int(e.rng.integers(0, 4))])
+    return "sptensor.innerprod", X.innerprod, (Y,), {}, X, {"how": how}
+
+
+@row("innerprod:empty-sptensor-operand:shape-mismatch")
+def _(e):
+    X = e.holder(KINDS4[int(e.rng.integers(0, 4))])
+    shp, how = other_shape(e)
+    Y = ttb.sptensor(shape=shp)
+    return "innerprod", X.innerprod, (Y,), {}, X, {"how": how}
+
+
 # ---- B. element-wise operators on different shapes -------------------------------------------------
 for _k in ("sptensor",):
     for _o in ("add", "sub", "mul", "truediv", "eq", "ne", "lt", "le", "gt", "ge"):
@@ -336,6 +352,11 @@ for _k in KINDS4:
             p[0], p[-1] = p[-1], p[0]
             return f"{k}.permute", X.permute, (p,), {}, X, {}
 
+        @row(f"{k}.permute:all-ones", (2, 3))
+        def _r4b(e, k=k):
+            X = e.holder(k)
+            return f"{k}.permute", X.permute, (np.ones(e.N, dtype=int),), {}, X, {}
+
         @row(f"{k}.nvecs:mode-out-of-range", (2, 3))
         def _r5(e, k=k):
             X = e.holder(k)
@@ -513,6 +534,20 @@ def _(e):
     return "ktensor.update", X.update, (0, gen.normals(e.rng, (e.shape[0] * 2 - 1,))), {}, X, {}
 
 
+@row("ktensor.update:data-too-short-for-a-later-mode", (2, 3))
+def _(e):
+    X = e.ktensor(R=2)
+    n = e.shape[0] * 2 + e.shape[1] * 2 - 1      # enough for mode 0, one value short for mode 1
+    return "ktensor.update", X.update, (np.array([0, 1]), gen.normals(e.rng, (n,))), {}, X, {}
+
+
+@row("ktensor.update:modes-not-ascending", (2, 3))
+def _(e):
+    X = e.ktensor(R=2)
+    n = e.shape[0] * 2 + e.shape[1] * 2
+    return "ktensor.update", X.update, (np.array([1, 0]), gen.normals(e.rng, (n,))), {}, X, {}
+
+
 @row("ktensor.update:mode-out-of-range")
 def _(e):
     X = e.ktensor(R=2)
@@ -655,6 +690,15 @@ def _(e):
     d = np.array(M.data)
     bad = np.zeros((d.shape[0] + 1, d.shape[1]))
     return "tenmat.__init__", ttb.tenmat, (bad, np.array(M.rindices), np.array(M.cindices), tuple(M.tshape)), {}, None, {}
+
+
+@row("tenmat.__init__:matrix-split-does-not-match-dims", (2, 3))
+def _(e):
+    M = e.tenmat()
+    d = np.array(M.data)
+    if d.shape[0] == d.shape[1] or 1 in d.shape:
+        return None
+    return "tenmat.__init__", ttb.tenmat, (np.ascontiguousarray(d.T), np.array(M.rindices), np.array(M.cindices), tuple(M.tshape)), {}, None, {}
 
 
 @row("tenmat.__init__:dims-not-a-partition", (2, 3))
